@@ -84,7 +84,11 @@ PROPS = {
             "picture_decode, clip/offset, idwt_pad_removal and inverse_wavelet_transform are verified (see C09); TRUSTED below them: idwt (returns a fresh array of the padded "
             "size, does not raise), delete_rows_after/delete_columns_after (slice deletion), the output callback (does not raise, does not touch the state)",
             "TRUSTED: Matcher (model M1/M2/M4), OrderedDict, allowed_values_for / ValueSet membership (C17, C18 bounded)",
-            "resource bounds of the property are irrelevant to a proof; termination is not proved",
+            "machine arithmetic treated as mathematical: Python integers are unbounded, so + - * // % are exact; but `1 << n` and `2 ** n` are modelled as the total "
+            "function pow2(n), whereas CPython raises OverflowError / MemoryError (or stalls) when n is astronomically large (e.g. a stream declaring dwt_depth = 2**70).  "
+            "The property's resource bound ('declared picture sizes, transform depths, slice counts and sample depths within modest bounds') is what excludes those streams; "
+            "the same input is recorded as a known finding of C25, whose statement has no such bound",
+            "termination is not proved",
         ],
         manifest=dict(
             category="proof",
@@ -264,7 +268,7 @@ PROPS = {
 
 # Properties registered in MANIFEST.json (tools/mkmanifest.py).  A bounded module under development contributes to PROPS (so
 # `./verif check <pid>` can be run on it) but is not claimed until its id is listed here.
-CLAIMED = ["C01", "C02", "C06", "C07", "C09", "C10", "C11", "C12", "C13", "C14", "C17", "C18", "C19", "C20", "C21", "C27", "C28"]
+CLAIMED = ["C01", "C02", "C06", "C07", "C09", "C10", "C11", "C12", "C13", "C14", "C17", "C18", "C19", "C20", "C21", "C23", "C25", "C27", "C28"]
 
 BROKEN = {}  # pid -> import error of a bounded module that (by its file name cNN_...) serves that property
 
